@@ -413,6 +413,7 @@ func sortU32(a []uint32) {
 }
 
 func runC09(c *fw.Ctx) {
+	runSpxFamily(c, "C09")
 	thorough := c.Tier == "thorough"
 	var item int64
 	sampled := 0
